@@ -50,16 +50,40 @@ fn level_json(ctx: &HeContext, cd: &ContextData, ckks: bool) -> Value {
     j
 }
 
-fn build(p: &Value) -> Result<EncryptionParameters, String> {
+/// build through the public builder; `order` permutes the setter calls (independent parties need not agree on it)
+fn build_in(p: &Value, order: usize) -> Result<EncryptionParameters, String> {
     guarded(|| {
         let scheme = scheme_of(p["scheme"].as_str().unwrap());
         let moduli: Vec<Modulus> = p["moduli"].as_array().unwrap().iter().map(|m| Modulus::new(m.as_u64().unwrap())).collect();
-        let mut parms = EncryptionParameters::new(scheme).set_poly_modulus_degree(p["n"].as_u64().unwrap() as usize).set_coeff_modulus(&moduli);
-        if scheme != SchemeType::CKKS {
-            parms = parms.set_plain_modulus_u64(p["t"].as_u64().unwrap());
+        let n = p["n"].as_u64().unwrap() as usize;
+        let t = p["t"].as_u64().unwrap();
+        let special = p["special_enc"].as_bool().unwrap();
+        let mut parms = EncryptionParameters::new(scheme);
+        let steps: [usize; 4] = match order {
+            0 => [0, 1, 2, 3],
+            1 => [1, 2, 3, 0],
+            2 => [2, 3, 0, 1],
+            _ => [3, 1, 0, 2],
+        };
+        for st in steps {
+            parms = match st {
+                0 => parms.set_poly_modulus_degree(n),
+                1 => parms.set_coeff_modulus(&moduli),
+                2 => {
+                    if scheme != SchemeType::CKKS {
+                        parms.set_plain_modulus_u64(t)
+                    } else {
+                        parms
+                    }
+                }
+                _ => parms.set_use_special_prime_for_encryption(special),
+            };
         }
-        parms.set_use_special_prime_for_encryption(p["special_enc"].as_bool().unwrap())
+        parms
     })
+}
+fn build(p: &Value) -> Result<EncryptionParameters, String> {
+    build_in(p, 0)
 }
 
 fn describe(ctx: &HeContext, ckks: bool) -> Value {
@@ -126,6 +150,15 @@ pub fn one(p: &Value) -> Value {
                     describe(&HeContext::new(p2, expand, sec), ckks)
                 });
                 ev["serialized_same"] = json!(matches!(&ser, Ok(a) if a["levels"] == d["levels"] && a["key"] == d["key"]));
+                // parties calling the builder's setters in another order agree on every level
+                let mut order_same = true;
+                for order in 1..4 {
+                    let other = guarded(|| describe(&HeContext::new(build_in(p, order).unwrap(), expand, sec), ckks));
+                    if !matches!(&other, Ok(a) if a["levels"] == d["levels"] && a["key"] == d["key"]) {
+                        order_same = false;
+                    }
+                }
+                ev["order_same"] = json!(order_same);
             }
         }
     }
